@@ -247,6 +247,27 @@ func (q *c08Seq) op(line string) {
 	} else {
 		q.out.Line("x %s", strings.Join(s, " "))
 	}
+	// bytes that appeared in a store without any row referencing them (the driver accepts this
+	// after a FAILED operation only: e.g. the filesystem store's rollback hooks run in registration
+	// order, so a part written, deduplicated away and then rolled back is restored by the
+	// DeletePart hook after the PutPart hook removed it)
+	refd := map[string]bool{}
+	for _, r := range a.rows {
+		refd[r.pid] = true
+	}
+	for i := range a.stores {
+		old := map[string]bool{}
+		if b.stores != nil && i < len(b.stores) {
+			for _, p := range b.stores[i] {
+				old[p] = true
+			}
+		}
+		for _, p := range a.stores[i] {
+			if !old[p] && !refd[p] {
+				q.out.Line("orphan %d %d auto", i, q.ords.pid[p])
+			}
+		}
+	}
 	q.before = a
 	q.out.Line("%s", q.k.stLine(q.ords, a))
 	if q.judge {
@@ -469,11 +490,11 @@ func (q *c08Seq) runLines(lines []string) {
 }
 
 func runC08(args []string) {
-	f := verifx.ParseFlags("c08", args, 54, 540)
+	f := verifx.ParseFlags("c08", args, 36, 450)
 	out := verifx.NewOut()
 	ctx := context.Background()
 	nops := 36
-	conc := 24
+	conc := 18
 	if f.Tier == "thorough" {
 		nops = 60
 		conc = 150
